@@ -2659,7 +2659,8 @@ static WUR iwrc _lx_del_sblk_lw(struct iwlctx *lx, struct sblk *sblk, uint8_t id
   pthread_spin_lock(&db->cursors_slk);
   for (struct iwkv_cursor *cur = db->cursors; cur; cur = cur->next) {
     if (cur->cn) {
-      if (cur->cn->addr == sblk->addr) {
+      // NOTE: `sblk` may be the node copy of one of these cursors and is overwritten below: compare with the saved block
+      if (ADDR2BLK(cur->cn->addr) == sblk_blkn) {
         if (nb->flags & SBLK_DB) {
           if (!(lx->plower[0]->flags & SBLK_DB)) {
             memcpy(cur->cn, lx->plower[0], sizeof(*cur->cn));
